@@ -1,6 +1,6 @@
 from functools import partial
 
-from . import p_domains, p_history, p_hybrid, p_polygon, p_search
+from . import p_domains, p_history, p_hybrid, p_io, p_polygon, p_search
 
 REGISTRY = {
     "C01": partial(p_search.run, "C01"),
@@ -14,5 +14,7 @@ REGISTRY = {
     "C03": p_domains.run,
     "C13": p_history.run,
     "C16": p_polygon.run_c16,
+    "C17": p_io.run_c17,
+    "C18": p_io.run_c18,
     "C04": p_polygon.run_c04,
 }
